@@ -37,6 +37,9 @@ pub struct Monitors {
     pub cfg: SoloCfg,
     /// when the scripted peer last acknowledged (cumulatively or selectively) something new
     pub last_news_t: Option<u64>,
+    /// something that justifies one more ST_FIN happened since the last one went out: a retransmission
+    /// timeout, or the transport refused / deferred a datagram
+    pub fin_rtx_credit: bool,
     /// the peer acknowledged a sequence number that was never sent (no liveness claims after that)
     pub hostile_ack_seen: bool,
     pub all_findings: Vec<Finding>,
@@ -106,6 +109,7 @@ impl Monitors {
     pub fn new(cfg: &SoloCfg) -> Self {
         Monitors {
             last_news_t: None,
+            fin_rtx_credit: false,
             hostile_ack_seen: false,
             cfg: cfg.clone(),
             all_findings: vec![],
@@ -174,6 +178,7 @@ impl Monitors {
             out.push(now.saturating_sub(*t));
         }
         out.push(self.hostile_ack_seen as u64);
+        out.push(self.fin_rtx_credit as u64);
         out.push(self.last_news_t.map(|t| now.saturating_sub(t).min(self.cfg.inactivity_ms * 1_000)).unwrap_or(u64::MAX));
         out.push(self.peer_last_wnd as u64);
         out.push(self.largest_payload_seen as u64);
@@ -1264,6 +1269,38 @@ impl Monitors {
                 if e.hdr.seq != fs {
                     v.push(f("C17", "teardown", "fin/renumbered", format!("ST_FIN first carried sequence number {}, now {}", fs, e.hdr.seq)));
                 }
+            }
+        }
+        // R2b: our FIN is repeated on timeout (or as the tail of a loss recovery that retransmits the data
+        // in front of it), not by whatever else makes the connection run
+        {
+            let fins_now = rec.emitted.iter().filter(|e| e.hdr.ptype == 1).count();
+            let fins_before = self.fin_times.len() - fins_now.min(self.fin_times.len());
+            let rto_now = rec.obs_before.as_ref().map(|o| o.timers[0].map(|d| d.as_micros() as u64 <= rec.clock_advanced_us).unwrap_or(false)).unwrap_or(false);
+            let rto_counted = match (&rec.obs_before, &rec.obs_after) {
+                (Some(b), Some(a)) => a.rto_retransmissions > b.rto_retransmissions,
+                _ => false,
+            };
+            let transport_trouble = !rec.rejected.is_empty() || w.tr.lock().pending_once || matches!(act, Some(Act::TransportPendingOnce));
+            if rto_now || rto_counted || transport_trouble {
+                self.fin_rtx_credit = true;
+            }
+            let data_rtx_now = rec.emitted.iter().any(|e| e.hdr.ptype == 0 && self.tx.get(&e.hdr.seq).map(|t| t.count > 1).unwrap_or(false));
+            if fins_now > 0 {
+                let repeats = if fins_before == 0 { fins_now - 1 } else { fins_now };
+                let dying = state_after == "gone";
+                if repeats > 0 && !self.fin_rtx_credit && !data_rtx_now && !dying && !self.hostile_ack_seen && !self.desync {
+                    v.push(f(
+                        "C17",
+                        "teardown",
+                        "fin/repeated-without-timeout",
+                        format!("ST_FIN (seq {:?}) was put on the wire again ({} time(s) so far) in a step without a retransmission timeout, without a retransmission of the data in front of it and without transport trouble (action {:?}, state before {})", self.fin_seq, self.fin_times.len(), act, state_before),
+                    ));
+                }
+                if repeats > 1 && !transport_trouble {
+                    v.push(f("C17", "teardown", "fin/repeated-without-timeout", format!("{} ST_FINs in one step", fins_now)));
+                }
+                self.fin_rtx_credit = false;
             }
         }
         // R3: the peer's in-sequence FIN is acknowledged at once and answered by our own FIN
